@@ -549,15 +549,17 @@ def diff_obs(a, b):
 
 def program_inputs(rng, tier):
   hs = []
-  # exhaustive small: every hierarchy of 3 classes after object with <= 3 bases (with repetition); thorough
-  # adds 4 classes with <= 2 bases
-  for h, _ in enum_hiers(3, 3):
-    hs.append(h)
+  # small hierarchies: thorough = every hierarchy of 3 classes after object with <= 3 bases (with repetition)
+  # and of 4 classes with <= 2 bases
   if tier == "thorough":
-    for h, _ in enum_hiers(4, 2):
+    for h, _ in itertools.chain(enum_hiers(3, 3), enum_hiers(4, 2)):
       hs.append(h)
+  else:  # quick: all with <= 2 bases, a seeded sample of those with a 3-base class
+    hs += [h for h, _ in enum_hiers(3, 2)]
+    three = [h for h, _ in enum_hiers(3, 3) if any(len(b) == 3 for b in h)]
+    hs += rng.sample(three, min(110, len(three)))
   n_ex = len(hs)
-  nrand = 1500 if tier == "thorough" else 200
+  nrand = 1500 if tier == "thorough" else 170
   for _ in range(nrand):
     h, _ = random_hier(rng, pdup=0.08)
     hs.append(h)
@@ -606,7 +608,7 @@ def _k3(res, rng, tier, drv, dist):
     if d:
       dis.append({"part": "K3 pytype on program vs model", "hier": it.bases, "defs": it.defs, "sdefs": it.sdefs,
                   "nattrs": it.nattrs, "diff(pytype vs model)": d[:8], "program": program_text(it)})
-  dist["k3_programs_exhaustive_small"] = n_ex
+  dist["k3_programs_enumerated_small"] = n_ex
   dist["k3_programs_random"] = len(items) - n_ex
   dist["k3_observed"] = stats
   ex = items[-1]
